@@ -15,6 +15,18 @@ Proof. destruct c, x, y; reflexivity. Qed.
 (* boolean goals over integer comparisons, whatever the shape (|| chains, if chains, lets) *)
 Ltac bool_lia := intros; cbv zeta; rewrite ?if_bool; lia.
 
+(* decide every `if` whose condition lia can decide from the hypotheses (whatever the nesting of ifs / switches
+   the source uses) *)
+Ltac decide_ifs :=
+  repeat match goal with
+         | |- context [if ?c then _ else _] =>
+             lazymatch c with
+             | true => fail
+             | false => fail
+             | _ => first [ replace c with true by lia | replace c with false by lia ]
+             end; cbv iota
+         end.
+
 Lemma find_existsb {A} (f : A -> bool) (l : list A) :
   match find f l with Some _ => true | None => false end = existsb f l.
 Proof. induction l as [|a l IH]; cbn [find existsb]; [reflexivity|]. destruct (f a); [reflexivity|exact IH]. Qed.
